@@ -53,6 +53,18 @@ class Hist05:
         elif k == 'remove':
             if os.path.lexists(a.path(op[1], op[2])):
                 a.remove(op[1], op[2])
+        elif k in ('copy', 'move'):
+            # cp -p / mv to the same relative name on another disk: same name, size and time-stamp -> copy detection (REP blocks)
+            _, d, n, d2 = op
+            p, q = a.path(d, n), a.path(d2, n)
+            if os.path.isfile(p) and not os.path.lexists(q):
+                os.makedirs(os.path.dirname(q), exist_ok=True)
+                st = os.stat(p)
+                shutil.copyfile(p, q)
+                os.utime(q, ns=(st.st_mtime_ns, st.st_mtime_ns))
+                a.note_version(d2, n)
+                if k == 'move':
+                    os.unlink(p)
         elif k == 'sync':
             r = a.run('sync', *(SYNC_OPTS + list(op[1:])))
             self.after_sync(r)
@@ -143,6 +155,10 @@ class Hist05:
             if first or c < 0.35 or not existing:
                 d = rng.choice(a.disks); nme = rng.choice(NAMES)
                 ops.append(('write', d, nme, rng.choice(SIZES[1:]), rng.getrandbits(32)))
+            elif c < 0.47 and a.nd > 1:
+                d, nme = rng.choice(existing)
+                d2 = rng.choice([x for x in a.disks if x != d])
+                ops.append((rng.choice(['copy', 'move']), d, nme, d2))
             elif c < 0.65:
                 d, nme = rng.choice(existing)
                 cur = os.path.getsize(a.path(d, nme)) if os.path.exists(a.path(d, nme)) else 1024
@@ -265,6 +281,50 @@ class Hist05:
         if '-e' in fx:
             self.do(('scrub',))
         self.do(fx)
+
+    # ---- histories aimed at copy-detected files (REP blocks) in stripes the sync did not reach ---------------------------
+    def run_rep_chain(self):
+        """a copy-detected file takes the place of a deleted one in a stripe the sync skips, is removed again, a new file takes
+        the place, the sync skips the stripe again, the new file is lost"""
+        rng, a = self.rng, self.arr
+        nb = rng.randint(1, 3)
+        size = nb * a.bs - rng.choice([0, 0, 1, 500])
+        for op in [('write', 'd1', 'a_old', size, rng.getrandbits(32)), ('write', 'd1', 'z_keep', rng.choice(SIZES[1:]), rng.getrandbits(32)),
+                   ('write', 'd2', 'movie', size, rng.getrandbits(32)), ('write', 'd2', 'z_keep2', rng.choice(SIZES[1:]), rng.getrandbits(32))]:
+            self.do(op)
+        if self.do(('sync',)).rc != 0:
+            return
+        self.do(('remove', 'd1', 'a_old'))
+        self.do(('copy', 'd2', 'movie', 'd1'))
+        self.do(('sync', '-S', str(nb)))
+        self.do(('remove', 'd1', 'movie'))
+        self.do(('write', 'd1', 'new', rng.choice([size, size, nb * a.bs]), rng.getrandbits(32)))
+        self.do(('sync', '-S', str(nb)))
+        self.do(('damage', 'rm', 'd1', 'new'))
+        if rng.random() < 0.3:
+            self.do(('damage', 'rm', 'd2', 'z_keep2'))
+        self.do(rng.choice([('fix',), ('fix', '-m')]))
+
+    def run_rep_blk(self):
+        """a moved (copy-detected) file sits over the place of a deleted file in a stripe the sync did not reach; it is lost
+        together with a synced file of a lower disk of the same stripe"""
+        rng, a = self.rng, self.arr
+        if a.nd < 3:
+            return
+        nb = rng.randint(1, 2)
+        size = nb * a.bs - rng.choice([0, 0, 7])
+        for op in [('write', 'd1', 'K', size, rng.getrandbits(32)), ('write', 'd1', 'zz', 2 * a.bs, rng.getrandbits(32)),
+                   ('write', 'd2', 'OLD', size, rng.getrandbits(32)), ('write', 'd2', 'zz2', 2 * a.bs, rng.getrandbits(32)),
+                   ('write', 'd3', 'A', nb * a.bs, rng.getrandbits(32)), ('write', 'd3', 'F', size, rng.getrandbits(32))]:
+            self.do(op)
+        if self.do(('sync',)).rc != 0:
+            return
+        self.do(('remove', 'd2', 'OLD'))
+        self.do(('move', 'd3', 'F', 'd2'))
+        self.do(('sync', '-S', str(nb)))
+        self.do(('damage', 'rm', 'd1', 'K'))
+        self.do(('damage', 'rm', 'd2', 'F'))
+        self.do(rng.choice([('fix',), ('fix', '-m')]))
 
     def replay(self, ops):
         for op in ops:
@@ -512,10 +572,18 @@ def main(tier, replay=None):
     tot = {}
     samples = []
 
+    nt = 8 if tier == 'quick' else 60
+    for i in range(nt):
+        jobs.append(((2, rng.choice([2, 2, 3]), None), rng.getrandbits(32), 'rep_chain'))
+        jobs.append(((3, rng.choice([2, 2, 3, 4]), None), rng.getrandbits(32), 'rep_blk'))
+
     def one(job):
         H = Hist05(chk, binary, shim, model, job[0], job[1])
         try:
-            H.run_generated()
+            if len(job) > 2:
+                getattr(H, 'run_' + job[2])()
+            else:
+                H.run_generated()
         finally:
             H.close()
         return H
@@ -526,7 +594,7 @@ def main(tier, replay=None):
             if len(samples) < 4:
                 samples.append({'geom': H.geom, 'history': [o for o in H.log if o[0] not in ('write',)][:12]})
     chk.cov.update({'evaluations': tot.get('cmds', 0), 'distinct_nontrivial': nh,
-                    'rule': 'corpus/C05 (the three known findings) + %d generated histories: tree, clean sync, 1-3 rounds of (rewrites same/other size, deletes incl. whole stripes, additions; then one of: full sync, -B/-S partial sync, --test-kill-after-sync, autosave+kill, --test-run touch/rm of a file during the sync, shim pread EIO), optional unsynced changes, damage (files removed / disks wiped / truncation / flips in hashed blocks / parity deleted, garbage, truncated, zeroed), optional scrub, fix with filters none/-m/-d/-f/-m -d/-e; judge = version store + before/after snapshot; non-trivial = histories' % nh,
+                    'rule': 'corpus/C05 (the three known findings) + %d generated histories: tree, clean sync, 1-3 rounds of (rewrites same/other size, deletes incl. whole stripes, additions; then one of: full sync, -B/-S partial sync, --test-kill-after-sync, autosave+kill, --test-run touch/rm of a file during the sync, shim pread EIO), copies and moves to other disks (copy detection), optional unsynced changes, damage (files removed / disks wiped / truncation / flips in hashed blocks / parity deleted, garbage, truncated, zeroed), optional scrub, fix with filters none/-m/-d/-f/-m -d/-e; judge = version store + before/after snapshot; plus %d + %d histories from two templates aimed at copy-detected (REP) blocks in stripes the sync did not reach; non-trivial = histories' % (nh, nt, nt),
                     'files_judged': tot.get('files_judged', 0), 'files_reported_recovered': tot.get('recovered', 0), 'files_reported_unrecoverable': tot.get('reported_unrecoverable', 0),
                     'wrong_files_attributed_to_known_findings': tot.get('known', 0), 'fix_runs_replayed_by_model': tot.get('model', 0),
                     'traces_validated_against_impl': tot.get('model', 0), 'corpus': reproduced})
